@@ -17,6 +17,26 @@ JOB = 'checks.jobs:gen_world'
 TICK = ['esr.generation.simplifier']
 
 
+_STEP_IDS = {}
+
+
+def step_ids():
+    """(function, line of 'with time_limit') -> 'function#k' (k-th time-limited step of that function, in source order):
+    an identity of a timed step that survives line shifts."""
+    if _STEP_IDS:
+        return _STEP_IDS
+    func, count = None, {}
+    for n, ln in enumerate(source_lines(), 1):
+        st = ln.strip()
+        if ln.startswith('def '):
+            func = ln[4:].split('(')[0]
+        if st.startswith('with time_limit(') and func:
+            count[func] = count.get(func, 0) + 1
+            _STEP_IDS[(func, n)] = '%s#%d' % (func, count[func])
+    _STEP_IDS.setdefault(('', 0), '?')
+    return _STEP_IDS
+
+
 def sigs_of(args, r):
     s = set()
     if r is None:
@@ -24,7 +44,16 @@ def sigs_of(args, r):
     if r.get('violation'):
         s.add(r['violation']['sig'])
     if r.get('sig'):
-        s.add(r['sig'])
+        # an unsound library after timeouts: the signature names the timed steps that were interrupted, so that a listed
+        # finding (known_findings.json) cannot hide a different route to the same symptom
+        ids = step_ids()
+        steps = set()
+        for rk in r.get('ranks') or []:
+            for f in (rk.get('clock') or {}).get('fired') or []:
+                site = f[5]
+                if site:
+                    steps.add(ids.get((site[0], site[1]), '%s:?' % site[0]))
+        s.add(r['sig'] + ('@steps:' + ','.join(sorted(steps)) if steps else ''))
     return s
 
 
@@ -160,7 +189,7 @@ def main(tier, seed, budget):
     src = source_lines()
     stats = dict(worlds=0, profile_worlds=0, faults_planned=0, faults_fired=0, armed_not_fired=0, by_gran={}, by_site={},
                  by_P={}, multi_fault_worlds=0, blocks_opened=0, covered=set(), worlds_nontrivial=set(), probes={k: 0 for k in PROBES}, timeouts_handled_msgs=0,
-                 events=0, ticks_total=0, blocks_total=0, classes_total=0, sound_functions=0, ref_failed=[], sweep=[], repeat_sweep=[], line_sweep=[])
+                 events=0, ticks_total=0, blocks_total=0, classes_total=0, sound_functions=0, ref_failed=[], directed_known_finding_worlds=0, sweep=[], repeat_sweep=[], line_sweep=[])
     samples = []
     selftest = {}
     with Pool(16, hashseed=0) as pool:
@@ -393,6 +422,20 @@ def main(tier, seed, budget):
                 stats['line_sweep'].append(dict(config=list(key), source_lines=len(lj), plans_run=stats['worlds'] - n0, complete=True, occurrences=[1]))
         rare_line_sweep(('core_maths', 5, 1), ('core_maths', 3, 1), 2 if quick else 6)
         rare_line_sweep(('core_maths', 4, 1), ('core_maths', 3, 1), 2 if quick else 6)
+        # ---- directed: the parameter-renumbering step of every function times out (known finding, see known_findings.json):
+        #      needs functions with >= 3 parameters whose two lowest merge - the no-unary basis at complexity 7
+        Lre = [n for n, ln in enumerate(src, 1) if ln.strip() == 'vars = list(sym_fun[i].free_symbols)']
+        if Lre:
+            b7 = [["x", "a"], [], ["+", "*"]]
+            c7 = dict(runname=configs.basis_name(b7), basis=b7, compl=7, nfun=configs.nfun(b7, 7))
+            dj = []
+            for v, L in enumerate([Lre[0], Lre[0] + 3] if not quick else [Lre[0]]):
+                a = base_args(c7, 1, base.run_seed(seed, 450000 + v))
+                a['plan'] = {'0': {'*': ['line', L, 1]}}
+                dj.append(dict(fn=JOB, args=a, timeout=1500))
+            for job, out in pool.imap(dj, timeout=1500):
+                handle(job, out, pending_min)
+            stats['directed_known_finding_worlds'] = len(dj)
         # ---- seeded sampling of fault plans ----
         if keys:
             deadline = time.time() + explore_s
@@ -426,13 +469,14 @@ def main(tier, seed, budget):
         fault_free_profile=dict(blocks=stats['blocks_total'], statement_ticks=stats['ticks_total'], path_classes=stats['classes_total']),
         faults_planned=stats['faults_planned'], faults_fired=stats['faults_fired'], armed_not_fired=stats['armed_not_fired'],
         fired_by_granularity=stats['by_gran'], fired_by_call_site=stats['by_site'], worlds_by_P=stats['by_P'],
-        multi_fault_worlds=stats['multi_fault_worlds'], probes=stats['probes'], single_fault_sweep=stats['sweep'], same_path_every_round_sweep=stats['repeat_sweep'], slow_statement_sweep=stats['line_sweep'],
+        multi_fault_worlds=stats['multi_fault_worlds'], directed_known_finding_worlds=stats['directed_known_finding_worlds'], probes=stats['probes'], single_fault_sweep=stats['sweep'], same_path_every_round_sweep=stats['repeat_sweep'], slow_statement_sweep=stats['line_sweep'],
         seam_events=stats['events'], functions_checked_by_libsound=stats['sound_functions'],
         simulated_time=dict(seam_events=stats['events'], timed_blocks_opened=stats['blocks_opened'],
                             note='virtual time stands still inside a timed block unless the fault plan expires it; the measure of simulated time is the number of seam events and of timed blocks executed'),
         runs_per_hour=round(3600.0 * stats['worlds'] / max(wall, 1e-9)), selftest=selftest, components=base.COMPONENTS,
         fault_kinds={'F3 timer expiry (statement)': stats['by_gran'].get('stmt', 0), 'F3 timer expiry (inside sympy call)': stats['by_gran'].get('deep', 0), 'F3 timer expiry (same source line every time)': stats['by_gran'].get('line', 0),
                      'F5 rank count P>=2 worlds': sum(v for k, v in stats['by_P'].items() if k > 1)},
+        known_findings_reproduced={k: v['count'] for k, v in rep.known_hits.items()},
         harness_errors=len(rep.harness), repo_head=base.repo_head(), exhaustive=False)
     rc = rep.finish()
     base.write_evidence(PID, tier, seed, 'fault_enumeration', cov, wall, len(rep.violations),
